@@ -27,7 +27,8 @@ DelimOpen == PairOpen \cup SymDelims
 Close(c)  == CASE c = "(" -> ")" [] c = "[" -> "]" [] c = "{" -> "}" [] c = "<" -> ">" [] OTHER -> c
 
 Letters     == {"a", "x"}
-SingleChars == Letters \cup DelimOpen \cup {")", "]", "}", ">", " ", "+", ",", ":"}
+NonAscii    == {"é", "漢"}        \* multi-byte characters: one character each (a key on their own, ordinary argument text)
+SingleChars == Letters \cup NonAscii \cup DelimOpen \cup {")", "]", "}", ">", " ", "+", ",", ":"}
 
 (* key names: atom -> canonical event name ("" = unsupported).  return is the documented synonym of enter. *)
 NamedKeys == {"ctrl-a", "enter", "return", "f2", "alt-x", "space", "load", "change", "tab", "up", "down"}
